@@ -47,10 +47,15 @@ import os
 def f(name, x):
     os.environ[name] = x
 '''),
-    ('os.environ.update', 'unsupported', ['A'], '''
+    ('os.environ.update of a literal mapping, nothing put back (read since the round-5 extension)', 'reject', ['A'], '''
 import os
 def f(x):
     os.environ.update({'A': x})
+'''),
+    ('os.environ.update with something the translator cannot see through', 'unsupported', ['A'], '''
+import os
+def f(x):
+    os.environ.update(x)
 '''),
     ('restore only in except Exception', 'reject', ['A'], '''
 import os
@@ -445,10 +450,708 @@ def f(x):
         else:
             environ['A'] = old
 '''),
+    # ------------------------------------------------------------ round-5 extension: more idioms read
+    ('x = os.environ.pop(NAME) under except KeyError (= need + save + unset), restore in finally', 'accept', ['A'], '''
+import os
+def f(x):
+    try:
+        old = os.environ.pop('A')
+    except KeyError:
+        raise RuntimeError('A is not set')
+    try:
+        work(x)
+    finally:
+        os.environ['A'] = old
+'''),
+    ('x = os.environ.pop(NAME), restored on the straight-line path only', 'reject', ['A'], '''
+import os
+def f(x):
+    old = os.environ.pop('A')
+    work(x)
+    os.environ['A'] = old
+'''),
+    ('x = os.environ.pop(NAME) without a handler: the KeyError leaves with nothing changed', 'accept', ['A'], '''
+import os
+def f(x):
+    old = os.environ.pop('A')
+    try:
+        work(x)
+    finally:
+        os.environ['A'] = old
+'''),
+    ('x = os.environ.pop(NAME, None) (= save + unset, no KeyError), pop-or-set in finally', 'accept', ['A'], '''
+import os
+def f(x):
+    old = os.environ.pop('A', None)
+    try:
+        work(x)
+    finally:
+        if old is None:
+            os.environ.pop('A', None)
+        else:
+            os.environ['A'] = old
+'''),
+    ('x = os.environ.pop(NAME, "") : an unset variable comes back as an empty one', 'reject', ['A'], '''
+import os
+def f(x):
+    old = os.environ.pop('A', '')
+    try:
+        work(x)
+    finally:
+        os.environ['A'] = old
+'''),
+    ('value of os.environ.pop(NAME) goes to an attribute: the effect is kept, nothing restores', 'reject', ['A'], '''
+import os
+def f(x):
+    x.old = os.environ.pop('A')
+    work(x)
+'''),
+    ('os.environ.pop(NAME) inside a larger expression', 'unsupported', ['A'], '''
+import os
+def f(x):
+    work(os.environ.pop('A'), x)
+'''),
+    ('helper that returns os.environ.pop(name), inlined', 'accept', ['A'], '''
+import os
+def _take(name):
+    return os.environ.pop(name)
+def f(x):
+    old = _take('A')
+    try:
+        work(x)
+    finally:
+        os.environ['A'] = old
+'''),
+    ('module-level tuple of names, dict comprehension snapshot, restore loop over .items()', 'accept', ['A', 'B'], '''
+import os
+_NAMES = ('A', 'B')
+def f(x):
+    saved = {name: os.environ.get(name) for name in _NAMES}
+    try:
+        os.environ['A'] = x.a
+        os.environ['B'] = x.b
+        work(x)
+    finally:
+        for name, value in saved.items():
+            if value is None:
+                os.environ.pop(name, None)
+            else:
+                os.environ[name] = value
+'''),
+    ('same, but an unset variable is not removed again', 'reject', ['A', 'B'], '''
+import os
+_NAMES = ('A', 'B')
+def f(x):
+    saved = {name: os.environ.get(name) for name in _NAMES}
+    try:
+        os.environ['A'] = x.a
+        os.environ['B'] = x.b
+        work(x)
+    finally:
+        for name, value in saved.items():
+            if value is not None:
+                os.environ[name] = value
+'''),
+    ('same, but the snapshot misses one of the variables written', 'reject', ['A', 'B'], '''
+import os
+_NAMES = ('A',)
+def f(x):
+    saved = {name: os.environ.get(name) for name in _NAMES}
+    try:
+        os.environ['A'] = x.a
+        os.environ['B'] = x.b
+        work(x)
+    finally:
+        for name, value in saved.items():
+            if value is None:
+                os.environ.pop(name, None)
+            else:
+                os.environ[name] = value
+'''),
+    ('module-level name that a function rebinds (global): not a constant', 'unsupported', ['A', 'B'], '''
+import os
+_NAMES = ('A', 'B')
+def configure(names):
+    global _NAMES
+    _NAMES = names
+def f(x):
+    saved = {name: os.environ.get(name) for name in _NAMES}
+    try:
+        os.environ['A'] = x.a
+        work(x)
+    finally:
+        for name, value in saved.items():
+            if value is None:
+                os.environ.pop(name, None)
+            else:
+                os.environ[name] = value
+'''),
+    ('module-level list of names that is only iterated over; for name in saved / saved[name]', 'accept', ['A', 'B'], '''
+import os
+_NAMES = ['A', 'B']
+def f(x):
+    saved = dict((name, os.environ.get(name)) for name in _NAMES)
+    try:
+        for name in _NAMES:
+            os.environ[name] = x[name]
+        work(x)
+    finally:
+        for name in saved:
+            if saved[name] is None:
+                os.environ.pop(name, None)
+            else:
+                os.environ[name] = saved[name]
+'''),
+    ('module-level list of names that somebody appends to', 'unsupported', ['A', 'B'], '''
+import os
+_NAMES = ['A', 'B']
+def register(name):
+    _NAMES.append(name)
+def f(x):
+    saved = dict((name, os.environ.get(name)) for name in _NAMES)
+    try:
+        os.environ['A'] = x.a
+        work(x)
+    finally:
+        for name in saved:
+            if saved[name] is None:
+                os.environ.pop(name, None)
+            else:
+                os.environ[name] = saved[name]
+'''),
+    ('snapshot dict changed between the snapshot and the restore', 'unsupported', ['A'], '''
+import os
+def f(x):
+    saved = {name: os.environ.get(name) for name in ('A',)}
+    try:
+        os.environ['A'] = x.a
+        saved['A'] = work(x)
+    finally:
+        for name, value in saved.items():
+            if value is None:
+                os.environ.pop(name, None)
+            else:
+                os.environ[name] = value
+'''),
+    ('list comprehension of (name, os.environ[name]) pairs over a module tuple; restore by plain assignment', 'accept',
+     ['A', 'B'], '''
+import os
+_NAMES = ('A', 'B')
+_PREFIX = 'new-'
+def f(x):
+    saved = [(name, os.environ[name]) for name in _NAMES]
+    try:
+        for name in _NAMES:
+            os.environ[name] = _PREFIX + x
+        work(x)
+    finally:
+        for name, value in saved:
+            os.environ[name] = value
+'''),
+    ('snapshot with .get() restored by plain assignment: an unset variable makes the restore raise', 'reject', ['A', 'B'], '''
+import os
+_NAMES = ('A', 'B')
+def f(x):
+    saved = [(name, os.environ.get(name)) for name in _NAMES]
+    try:
+        for name in _NAMES:
+            os.environ[name] = x
+        work(x)
+    finally:
+        for name, value in saved:
+            os.environ[name] = value
+'''),
+    ('snapshot that pops: {name: os.environ.pop(name, None)}, restore over sorted(.items())', 'accept', ['A', 'B'], '''
+import os
+def f(x):
+    hidden = {name: os.environ.pop(name, None) for name in ('B', 'A')}
+    try:
+        work(x)
+    finally:
+        for name, value in sorted(hidden.items()):
+            if value is not None:
+                os.environ[name] = value
+            else:
+                os.environ.pop(name, None)
+'''),
+    ('os.environ.setdefault(NAME, value) guarded by a snapshot', 'accept', ['A'], '''
+import os
+def f(x):
+    old = os.environ.get('A')
+    try:
+        os.environ.setdefault('A', str(x))
+        work(x)
+    finally:
+        if old is None:
+            os.environ.pop('A', None)
+        else:
+            os.environ['A'] = old
+'''),
+    ('os.environ.setdefault(NAME, value), nothing put back', 'reject', ['A'], '''
+import os
+def f(x):
+    where = os.environ.setdefault('A', '/default')
+    work(x, where)
+'''),
+    ('os.environ.setdefault of a computed name', 'unsupported', ['A'], '''
+import os
+def f(name, x):
+    os.environ.setdefault(name, x)
+'''),
+    ('os.environ.update(literal mapping, keyword) guarded; restored with os.environ.update(<dict of loaded values>)',
+     'accept', ['A', 'B'], '''
+import os
+def f(x):
+    saved = {name: os.environ[name] for name in ('A', 'B')}
+    try:
+        os.environ.update({'A': x.a}, B=x.b)
+        work(x)
+    finally:
+        os.environ.update(saved)
+'''),
+    ('os.environ.update(<dict of .get() values>): an unset variable makes the restore raise', 'reject', ['A', 'B'], '''
+import os
+def f(x):
+    saved = {name: os.environ.get(name) for name in ('A', 'B')}
+    try:
+        os.environ.update({'A': x.a}, B=x.b)
+        work(x)
+    finally:
+        os.environ.update(saved)
+'''),
+    ('os.environ.update writes a variable that is not in the snapshot', 'reject', ['A', 'B'], '''
+import os
+def f(x):
+    saved = {name: os.environ[name] for name in ('A',)}
+    try:
+        os.environ.update(A=x.a, B=x.b)
+        work(x)
+    finally:
+        os.environ.update(saved)
+'''),
+    ('full snapshot dict(os.environ) with clear() + update(): refused (no finite list of variables)', 'unsupported', ['A'], '''
+import os
+def f(x):
+    saved = dict(os.environ)
+    try:
+        os.environ['A'] = x
+        work(x)
+    finally:
+        os.environ.clear()
+        os.environ.update(saved)
+'''),
+    ('full snapshot os.environ.copy() restored variable by variable over a computed set of names', 'unsupported', ['A'], '''
+import os
+def f(x):
+    saved = os.environ.copy()
+    try:
+        os.environ['A'] = x
+        work(x)
+    finally:
+        for name in set(os.environ) - set(saved):
+            del os.environ[name]
+        for name, value in saved.items():
+            os.environ[name] = value
+'''),
+    ('restore helper taking the dict snapshot (for name, value in snapshot.items())', 'accept', ['A', 'B'], '''
+import os
+_NAMES = ('A', 'B')
+def _restore(snapshot):
+    for name, value in snapshot.items():
+        if value is None:
+            os.environ.pop(name, None)
+        else:
+            os.environ[name] = value
+def f(x):
+    before = {name: os.environ.get(name) for name in _NAMES}
+    try:
+        os.environ['A'] = x.a
+        os.environ['B'] = x.b
+        work(x)
+    finally:
+        _restore(before)
+'''),
+    ('restore helper that empties the snapshot it is given before using it', 'unsupported', ['A'], '''
+import os
+def _restore(snapshot):
+    snapshot.clear()
+    for name, value in snapshot.items():
+        os.environ[name] = value
+def f(x):
+    before = {name: os.environ.get(name) for name in ('A',)}
+    try:
+        os.environ['A'] = x.a
+        work(x)
+    finally:
+        _restore(before)
+'''),
+    ('os.getenv(NAME) snapshot', 'accept', ['A'], '''
+import os
+def f(x):
+    old = os.getenv('A')
+    try:
+        os.environ['A'] = x
+        work(x)
+    finally:
+        if old is None:
+            os.environ.pop('A', None)
+        else:
+            os.environ['A'] = old
+'''),
+    ('os.getenv(NAME, "") snapshot: an unset variable comes back empty', 'reject', ['A'], '''
+import os
+def f(x):
+    old = os.getenv('A', '')
+    try:
+        os.environ['A'] = x
+        work(x)
+    finally:
+        os.environ['A'] = old
+'''),
+    ('try: x = os.environ[NAME] except KeyError: x = None   as the snapshot', 'accept', ['A'], '''
+import os
+def f(x):
+    try:
+        old = os.environ['A']
+    except KeyError:
+        old = None
+    try:
+        os.environ['A'] = x
+        work(x)
+    finally:
+        if old is None:
+            os.environ.pop('A', None)
+        else:
+            os.environ['A'] = old
+'''),
+    ('try: x = os.environ[NAME] except KeyError: x = ""   is not a snapshot of the absence', 'reject', ['A'], '''
+import os
+def f(x):
+    try:
+        old = os.environ['A']
+    except KeyError:
+        old = ''
+    try:
+        os.environ['A'] = x
+        work(x)
+    finally:
+        if old is None:
+            os.environ.pop('A', None)
+        else:
+            os.environ['A'] = old
+'''),
+    ('snapshot by tuple unpacking of a comprehension over a module tuple', 'accept', ['A', 'B'], '''
+import os
+_NAMES = ('A', 'B')
+def f(x):
+    old_a, old_b = [os.environ.get(name) for name in _NAMES]
+    try:
+        os.environ['A'] = x.a
+        os.environ['B'] = x.b
+        work(x)
+    finally:
+        for name, value in (('A', old_a), ('B', old_b)):
+            if value is None:
+                os.environ.pop(name, None)
+            else:
+                os.environ[name] = value
+'''),
+    ('snapshot by tuple unpacking, restored crosswise', 'reject', ['A', 'B'], '''
+import os
+def f(x):
+    old_a, old_b = os.environ.get('A'), os.environ.get('B')
+    try:
+        os.environ['A'] = x.a
+        os.environ['B'] = x.b
+        work(x)
+    finally:
+        for name, value in (('A', old_b), ('B', old_a)):
+            if value is None:
+                os.environ.pop(name, None)
+            else:
+                os.environ[name] = value
+'''),
+    ('snapshot by tuple unpacking, one of the names assigned again later', 'reject', ['A', 'B'], '''
+import os
+def f(x):
+    old_a, old_b = os.environ.get('A'), os.environ.get('B')
+    try:
+        os.environ['A'] = x.a
+        os.environ['B'] = x.b
+        old_b = work(x)
+    finally:
+        for name, value in (('A', old_a), ('B', old_b)):
+            if value is None:
+                os.environ.pop(name, None)
+            else:
+                os.environ[name] = value
+'''),
+    ('snapshot kept in a namedtuple, restored field by field', 'accept', ['A', 'B'], '''
+import os
+from collections import namedtuple
+_Saved = namedtuple('_Saved', ('a', 'b'))
+def f(x):
+    saved = _Saved(a=os.environ.get('A'), b=os.environ.get('B'))
+    try:
+        os.environ['A'] = x.a
+        os.environ['B'] = x.b
+        work(x)
+    finally:
+        for name, value in (('A', saved.a), ('B', saved.b)):
+            if value is None:
+                os.environ.pop(name, None)
+            else:
+                os.environ[name] = value
+'''),
+    ('snapshot kept in a namedtuple, one field restored into the wrong variable', 'reject', ['A', 'B'], '''
+import os
+import collections
+_Saved = collections.namedtuple('_Saved', 'a b')
+def f(x):
+    saved = _Saved(os.environ.get('A'), os.environ.get('B'))
+    try:
+        os.environ['A'] = x.a
+        os.environ['B'] = x.b
+        work(x)
+    finally:
+        for name, value in (('A', saved.a), ('B', saved[0])):
+            if value is None:
+                os.environ.pop(name, None)
+            else:
+                os.environ[name] = value
+'''),
+    ('restore loop over the module tuple with a second name for the saved value (value = saved[name])', 'accept',
+     ['A', 'B'], '''
+import os
+_NAMES = ('A', 'B')
+def f(x):
+    saved = {name: os.environ.get(name) for name in _NAMES}
+    try:
+        os.environ['A'] = x.a
+        os.environ['B'] = x.b
+        work(x)
+    finally:
+        for name in _NAMES:
+            value = saved[name]
+            if value is None:
+                os.environ.pop(name, None)
+            else:
+                os.environ[name] = value
+'''),
+    ('second name bound under a condition: may be stale / unbound at the use', 'reject', ['A'], '''
+import os
+def f(x):
+    saved = {name: os.environ.get(name) for name in ('A',)}
+    value = None
+    try:
+        os.environ['A'] = x.a
+        work(x)
+    finally:
+        if x.careful:
+            value = saved['A']
+        if value is None:
+            os.environ.pop('A', None)
+        else:
+            os.environ['A'] = value
+'''),
+    ('@contextmanager generator taking *names, dict snapshot, restore over .items()', 'accept', ['A', 'B'], '''
+import os
+from contextlib import contextmanager
+@contextmanager
+def _preserved(*names):
+    saved = {name: os.environ.get(name) for name in names}
+    try:
+        yield
+    finally:
+        for name, value in saved.items():
+            if value is None:
+                os.environ.pop(name, None)
+            else:
+                os.environ[name] = value
+def f(x):
+    with _preserved('A', 'B'):
+        os.environ['A'] = x.a
+        os.environ['B'] = x.b
+        work(x)
+'''),
+    ('the same generator asked to preserve only one of the two variables written', 'reject', ['A', 'B'], '''
+import os
+from contextlib import contextmanager
+@contextmanager
+def _preserved(*names):
+    saved = {name: os.environ.get(name) for name in names}
+    try:
+        yield
+    finally:
+        for name, value in saved.items():
+            if value is None:
+                os.environ.pop(name, None)
+            else:
+                os.environ[name] = value
+def f(x):
+    with _preserved('A'):
+        os.environ['A'] = x.a
+        os.environ['B'] = x.b
+        work(x)
+'''),
+    ('snapshot helper returning a dict comprehension over the names it is given (module tuple)', 'accept', ['A', 'B'], '''
+import os
+_NAMES = ('A', 'B')
+def _values(names):
+    return {name: os.environ.get(name) for name in names}
+def f(x):
+    saved = _values(_NAMES)
+    try:
+        os.environ['A'] = x.a
+        os.environ['B'] = x.b
+        work(x)
+    finally:
+        for name, value in saved.items():
+            if value is None:
+                os.environ.pop(name, None)
+            else:
+                os.environ[name] = value
+'''),
+]
+
+# ---------------------------------------------------------------- restore code recognised without an IR
+# every line ending in `#R` must be restore code (never injected), every other line must not be
+RESTORE_SNIPPETS = [
+    ('finally: collaborator call stays injectable, restore loop over a computed name does not', '''
+import os
+def f(x, names):
+    saved = {name: os.environ.get(name) for name in names}
+    h = None
+    try:
+        h = open(x)
+        os.environ['A'] = work(h)
+    finally:
+        if h is not None:                       #R
+            h.close()
+        for name, value in saved.items():       #R
+            if value is None:                   #R
+                os.environ.pop(name, None)      #R
+            else:                               #R
+                os.environ[name] = value        #R
+        log(x)
+'''),
+    ('restore statement whose value is computed; while loop with an index; conditional with a collaborator test', '''
+import os
+def f(x, names):
+    saved = [os.environ.get(n) for n in names]
+    try:
+        go(x)
+    finally:
+        i = 0                                   #R
+        while i < len(names):                   #R
+            if saved[i] is not None:            #R
+                os.environ[names[i]] = saved[i] #R
+            i = i + 1                           #R
+        if x.verbose:
+            os.environ['A'] = norm(x,           #R
+                                   1)           #R
+'''),
+    ('__exit__: collaborator before the restore is injectable, the restore is not', '''
+import os
+class hide(object):
+    def __init__(self, name, handle):
+        self.name = name
+        self.handle = handle
+    def __enter__(self):
+        self.saved = os.environ.pop(self.name, None)
+        return self
+    def __exit__(self, *exc):
+        self.handle.close()
+        if self.saved is not None:              #R
+            os.environ[self.name] = self.saved  #R
+        return False                            #R
+'''),
+    ('@contextmanager: code after the yield (no try), handlers / finally of a try around the yield', '''
+import os
+from contextlib import contextmanager
+@contextmanager
+def a(name, value):
+    old = os.environ.get(name)
+    os.environ[name] = value
+    yield
+    report(name)
+    os.environ[name] = old                      #R
+@contextmanager
+def b(name, value):
+    old = os.environ.get(name)
+    os.environ[name] = compute(value)
+    try:
+        yield
+    except KeyError:
+        os.environ.pop(name, None)              #R
+        raise
+    finally:
+        if old is None:                         #R
+            os.environ.pop(name, None)          #R
+        else:                                   #R
+            os.environ[name] = old              #R
+'''),
+    ('helper called from a finally: its environment statements are restore code, its collaborator calls are not', '''
+import os
+def _put_back(name, value, log):
+    log.debug(name)
+    try:                                        #R
+        del os.environ[name]                    #R
+    except KeyError:                            #R
+        pass                                    #R
+    if value is not None:                       #R
+        os.environ[name] = value                #R
+def _pure(snapshot):
+    for name, value in snapshot.items():        #R
+        os.environ[name] = value                #R
+def f(x, log):
+    old = os.environ.get('A')
+    snap = {'B': os.environ['B']}
+    try:
+        os.environ['A'] = x
+        go(x)
+    finally:
+        _pure(snap)                             #R
+        _put_back('A', old, log)                #R
+'''),
+    ('outside a finally only the head of a pure environment idiom is exempt; a nested finally is restore code', '''
+import os
+def f(x, names):
+    old = os.environ.get('A')
+    if old is None:                             #R
+        os.environ['A'] = 'x'
+    for name in names:                          #R
+        del os.environ[name]
+    for name in names:
+        os.environ[name] = work(name)
+    try:
+        try:
+            go(x)
+        finally:
+            os.environ['A'] = 'y'               #R
+        more(x)
+    finally:
+        with lock(x):
+            os.environ['A'] = old               #R
+'''),
 ]
 
 
+def restore_selftest(ctx, X):
+    bad = []
+    for name, src in RESTORE_SNIPPETS:
+        tr = X.Translator('<selftest:%s>' % name, src=src)
+        got = {l for _, l in X.restore_lines(tr)}
+        want = {i + 1 for i, line in enumerate(src.split('\n')) if line.rstrip().endswith('#R')}
+        # only lines that carry a statement matter (an `else:` line has no LINE event of its own)
+        if got != want:
+            bad.append('%s: missing %s, unexpected %s' % (name, sorted(want - got), sorted(got - want)))
+    ctx.oblige('restore-code recogniser self-test: %d snippets, restore lines marked exactly' % len(RESTORE_SNIPPETS),
+               not bad, 'gen-selftest', '\n'.join(bad))
+
+
 def run(ctx, core, X):
+    restore_selftest(ctx, X)
     lines, exp = [], []
     for name, want, vs, src in SNIPPETS:
         tr = X.Translator('<selftest:%s>' % name, src=src)
